@@ -308,7 +308,7 @@ Proof.
   - destruct (cons s); auto. destruct I; constructor; simpl; auto. intros. specialize (n_status0 H). lia.
   - destruct (cons s); auto. destruct I; constructor; simpl; auto.
   - destruct (cons s); auto. destruct (rx_open s) eqn:Er; auto.
-    destruct I; constructor; simpl; auto.
+    destruct I; constructor; simpl; auto. intros. specialize (n_status0 H). lia.
 Qed.
 
 Theorem reachable_ninv s : reachable s -> NInv s.
@@ -642,3 +642,469 @@ Theorem reachable_inv s : reachable s -> Inv s.
 Proof.
   intros [ls ->]. apply run_inv. constructor; [apply ninv_init|apply hinv_init|apply qinv_init].
 Qed.
+
+(* ---------- list facts about ids / markers ---------- *)
+
+Lemma in_ids h i : In i (ids h) <-> In (Msg i) h.
+Proof.
+  induction h as [|[k|] t IH]; simpl; [tauto| |].
+  - rewrite IH. split; intros [A|A]; auto; left; congruence.
+  - rewrite IH. split; [auto|intros [A|A]; [discriminate|auto]].
+Qed.
+
+Lemma nodup_ids h : NoDup h -> NoDup (ids h).
+Proof.
+  induction h as [|[k|] t IH]; simpl; intros H; inversion H; subst; auto; [constructor|constructor; auto].
+  rewrite in_ids. auto.
+Qed.
+
+Lemma firstn_app_exact {A} (a b : list A) : firstn (length a) (a ++ b) = a.
+Proof. rewrite firstn_app, Nat.sub_diag, firstn_all. simpl. apply app_nil_r. Qed.
+
+Lemma in_markers h : In Marker h -> markers h >= 1.
+Proof. induction h as [|[k|] t IH]; simpl; intros H; [tauto| |lia]. destruct H as [H|H]; [discriminate|auto]. Qed.
+
+(* if a history with exactly one marker, placed last, is split and the marker is in the
+   first part, the second part is empty *)
+Lemma marker_last_split (a b msgs : list item) :
+  a ++ b = msgs ++ [Marker] -> markers msgs = 0 -> markers a >= 1 -> b = [].
+Proof.
+  intros E Hm Ha. destruct b as [|x b] using rev_ind; auto. clear IHb.
+  rewrite app_assoc in E. apply app_inj_tail in E as [E ->].
+  assert (X : markers (a ++ b) = 0) by (rewrite E; auto).
+  rewrite markers_app in X. lia.
+Qed.
+
+Lemma markers_pos_in h : markers h >= 1 -> In Marker h.
+Proof. induction h as [|[k|] t IH]; simpl; intros H; [lia|right; auto|left; auto]. Qed.
+
+Lemma nodup_app_l {A} (a b : list A) : NoDup (a ++ b) -> NoDup a.
+Proof.
+  induction a as [|x a IH]; simpl; intros H; [constructor|]. inversion H; subst.
+  constructor; auto. intros X. apply H2. apply in_or_app. auto.
+Qed.
+
+Definition before {A} (x y : A) (l : list A) : Prop := exists a b c, l = a ++ x :: b ++ y :: c.
+
+(* ---------- single-state consequences ---------- *)
+
+Lemma result_pc s i r : result s i = Some r -> nth_error (ss s) i = Some (SDone r).
+Proof.
+  unfold result. destruct (nth_error (ss s) i) as [[]|]; try discriminate. intros [= ->]. auto.
+Qed.
+
+Lemma ok_accepted s i : Inv s -> result s i = Some ROk -> In i (accepted s).
+Proof.
+  intros [_ [PTs _] _] H. apply result_pc in H. unfold accepted. rewrite in_ids.
+  apply (PTs i). unfold enq_at. rewrite H. auto.
+Qed.
+
+Lemma rejected_not_accepted s i r :
+  Inv s -> result s i = Some r -> r <> ROk ->
+  ~ In i (accepted s) /\ ~ In i (handled s) /\ (forall m, r = RErr m -> m = i).
+Proof.
+  intros [_ [PTs _] [(fl & E1 & _) _ _ _]] H Hr. apply result_pc in H.
+  assert (A : ~ In i (accepted s)).
+  { unfold accepted. rewrite in_ids. intros X. apply (PTs i) in X. unfold enq_at in X. rewrite H in X.
+    destruct r; simpl in X; congruence. }
+  split; auto. split.
+  - intros X. apply A. unfold accepted, handled in *. rewrite E1, ids_app. apply in_or_app. auto.
+  - intros m ->. destruct (PTs i) as [_ X]. unfold res_ok_at in X. rewrite H in X. exact X.
+Qed.
+
+Lemma refines_fifo s : Inv s ->
+  handled s = firstn (length (handled s)) (accepted s) /\ NoDup (accepted s) /\ NoDup (handled s).
+Proof.
+  intros [_ [_ ND] [(fl & E1 & _) _ _ _]]. unfold handled, accepted.
+  assert (E : ids (hist s) = ids (taken s) ++ ids fl) by (rewrite E1; apply ids_app).
+  split; [rewrite E; symmetry; apply firstn_app_exact|].
+  pose proof (nodup_ids _ ND) as X. split; auto.
+  rewrite E in X. apply nodup_app_l in X. exact X.
+Qed.
+
+Lemma exactly_once_if_alive s : Inv s -> alive (cons s) = true -> q s = [] -> handled s = accepted s.
+Proof.
+  intros [_ _ [(fl & E1 & E2) QA _ _]] A Eq. destruct (QA A) as (Hrx & _).
+  specialize (E2 Hrx). unfold handled, accepted. rewrite E1, E2, Eq, app_nil_r. auto.
+Qed.
+
+Lemma marker_unique s : Inv s -> markers (hist s) <= 1.
+Proof. intros [[_ _ N3 _ _ _ _ _ _] _ _]. destruct (marker s); simpl in N3; lia. Qed.
+
+Lemma marker_after_accepted s : Inv s -> In Marker (hist s) ->
+  exists msgs, hist s = msgs ++ [Marker] /\ ~ In Marker msgs /\
+    (forall i, result s i = Some ROk -> In (Msg i) msgs) /\
+    sumf admitted1 (ss s) = 0 /\ closed s = true.
+Proof.
+  intros I H. pose proof (marker_unique _ I) as U. pose proof (in_markers _ H) as L.
+  destruct I as [N HI Q]. destruct (n_last _ N ltac:(lia)) as (msgs & E & Hm).
+  exists msgs. split; auto. split; [apply markers_0_notin; auto|]. split.
+  - intros i Hr. pose proof (ok_accepted s i (Build_Inv _ N HI Q) Hr) as X.
+    unfold accepted in X. rewrite in_ids, E in X. apply in_app_or in X as [X|[X|[]]]; auto. discriminate.
+  - assert (Mk : marker s = true).
+    { destruct (marker s) eqn:Em; auto. pose proof (n_one _ N) as X. rewrite Em in X. simpl in X. lia. }
+    destruct (n_marker _ N Mk) as [Hc Hn]. rewrite <- (n_cnt _ N). auto.
+Qed.
+
+Lemma forallb_sumf0 {A} (d : A -> bool) (f : A -> nat) l :
+  (forall x, d x = true -> f x = 0) -> forallb d l = true -> sumf f l = 0.
+Proof.
+  intros H. induction l as [|x t IH]; simpl; auto. intros E. apply andb_true_iff in E as [E1 E2].
+  rewrite (H _ E1), IH; auto.
+Qed.
+
+Lemma marker_eventually s : Inv s -> all_done s = true -> ds s <> [] ->
+  marker s = true /\ (In Marker (hist s) \/ (mlost s = true /\ rx_open s = false)).
+Proof.
+  intros [N _ _] AD Hd. unfold all_done in AD. apply andb_true_iff in AD as [As Ad].
+  assert (Z1 : sumf admitted1 (ss s) = 0) by (apply (forallb_sumf0 s_done); auto; intros []; simpl; auto; discriminate).
+  assert (Z2 : sumf s_sending (ss s) = 0) by (apply (forallb_sumf0 s_done); auto; intros []; simpl; auto; discriminate).
+  assert (Z3 : sumf s_live (ss s) = 0) by (apply (forallb_sumf0 s_done); auto; intros []; simpl; auto; discriminate).
+  assert (Z4 : sumf d_sending (ds s) = 0) by (apply (forallb_sumf0 d_done); auto; intros []; simpl; auto; discriminate).
+  assert (Z5 : sumf d_live (ds s) = 0) by (apply (forallb_sumf0 d_done); auto; intros []; simpl; auto; discriminate).
+  assert (Z6 : sumf d_past (ds s) >= 1).
+  { destruct (ds s) as [|p t]; [congruence|]. simpl in *. apply andb_true_iff in Ad as [Ap _].
+    destruct p; simpl in *; try discriminate; lia. }
+  pose proof (n_closed _ N Z6) as Hc.
+  assert (Mk : marker s = true).
+  { destruct (marker s) eqn:Em; auto. pose proof (n_live _ N Hc Em) as X.
+    rewrite (n_cnt _ N), Z1, Z3, Z5 in X. specialize (X eq_refl). lia. }
+  split; auto. pose proof (n_one _ N) as X. rewrite Mk, Z2, Z4 in X. simpl in X.
+  destruct (mlost s) eqn:El; simpl in X.
+  - right. split; auto. apply (n_lost _ N); auto.
+  - left. apply markers_pos_in. lia.
+Qed.
+
+(* a drain cannot leave the actor idle forever: in a state where every call has returned and
+   some drain ran, a still-polling actor has the marker ahead of it in its queue *)
+Lemma drained_not_idle s : Inv s -> all_done s = true -> ds s <> [] -> alive (cons s) = true ->
+  In Marker (q s).
+Proof.
+  intros I AD Hd A. destruct (marker_eventually s I AD Hd) as [_ [H|[_ H]]].
+  - destruct I as [_ _ [(fl & E1 & E2) QA _ _]]. destruct (QA A) as (Hrx & _ & Hmk).
+    rewrite <- (E2 Hrx). rewrite E1 in H. apply in_app_or in H as [H|H]; auto.
+    apply in_markers in H. lia.
+  - destruct I as [_ _ [_ QA _ _]]. destruct (QA A) as (Hrx & _). congruence.
+Qed.
+
+Lemma drained_once s : Inv s ->
+  length (exits s) <= 1 /\
+  (forall r, cons s = CExit r \/ cons s = CDead r -> r = RDrained ->
+     In Marker (taken s) /\ handled s = accepted s /\ sumf admitted1 (ss s) = 0) /\
+  (forall r, exits s = [r] <-> cons s = CDead r).
+Proof.
+  intros I. pose proof I as [N HI [QS QA QE QD]]. split; [|split].
+  - destruct (cons s) eqn:Ec.
+    + destruct (QA eq_refl) as (_ & -> & _). simpl; lia.
+    + destruct (QA eq_refl) as (_ & -> & _). simpl; lia.
+    + destruct (QA eq_refl) as (_ & -> & _). simpl; lia.
+    + destruct (QE _ eq_refl) as (-> & _). simpl; lia.
+    + destruct (QD _ eq_refl) as (-> & _). simpl; lia.
+  - intros r Hc ->.
+    assert (Hmk : markers (taken s) = 1).
+    { destruct Hc as [Hc|Hc]; [apply QE in Hc|apply QD in Hc]; simpl in Hc; tauto. }
+    destruct QS as (fl & E1 & E2).
+    assert (HM : In Marker (hist s)).
+    { rewrite E1. apply in_or_app. left. apply markers_pos_in. lia. }
+    destruct (marker_after_accepted s I HM) as (msgs & E & Hn & _ & Had & _).
+    assert (Hfl : fl = []).
+    { apply (marker_last_split (taken s) fl msgs); [congruence| |lia].
+      destruct (markers msgs) eqn:X; auto. exfalso. apply Hn, markers_pos_in. lia. }
+    subst fl. rewrite app_nil_r in E1. split.
+    + apply markers_pos_in. lia.
+    + split; [unfold handled, accepted; congruence|auto].
+  - intros r. split.
+    + intros E. destruct (cons s) eqn:Ec.
+      * destruct (QA eq_refl) as (_ & X & _). congruence.
+      * destruct (QA eq_refl) as (_ & X & _). congruence.
+      * destruct (QA eq_refl) as (_ & X & _). congruence.
+      * destruct (QE _ eq_refl) as (X & _). congruence.
+      * destruct (QD _ eq_refl) as (X & _). congruence.
+    + intros Hc. apply QD in Hc. tauto.
+Qed.
+
+(* ---------- how one step changes what later states are compared on ---------- *)
+
+Lemma nth_app_fresh (l l1 : list spc) i : Forall (eq T0) l1 -> nth_error l i = None ->
+  nth_error (l ++ l1) i = None \/ nth_error (l ++ l1) i = Some T0.
+Proof.
+  intros F E. destruct (nth_error (l ++ l1) i) eqn:E2; auto. right.
+  apply nth_error_None in E. rewrite nth_error_app2 in E2 by lia.
+  apply nth_error_In in E2. rewrite Forall_forall in F. rewrite (F _ E2). auto.
+Qed.
+
+Definition pc_keep (l l' : list spc) (i : nat) : Prop :=
+  nth_error l' i = nth_error l i \/ (nth_error l i = None /\ nth_error l' i = Some T0).
+
+Lemma do_call_keep s c k s' i : do_call s c = (k, s') -> pc_keep (ss s) (ss s') i.
+Proof.
+  intros H. destruct (do_call_shape _ _ _ _ H) as (l1 & l2 & l3 & Es & _ & _ & _ & F & _).
+  unfold pc_keep. rewrite Es. destruct (nth_error (ss s) i) eqn:E.
+  - left. apply nth_app_some; auto.
+  - destruct (nth_app_fresh _ _ _ F E) as [X|X]; rewrite X; auto.
+Qed.
+
+Lemma pc_keep_upd l l' i j p : pc_keep l l' i -> j <> i -> pc_keep l (upd l' j p) i.
+Proof. unfold pc_keep. intros H Hne. rewrite (nth_upd_neq _ _ _ _ Hne). exact H. Qed.
+
+Lemma pc_keep_refl l i : pc_keep l l i.
+Proof. left; auto. Qed.
+
+Lemma sstep_other fail s j i : j <> i -> pc_keep (ss s) (ss (sstep fail s j)) i.
+Proof.
+  intros Hne. unfold sstep.
+  destruct (nth_error (ss s) j) as [p|] eqn:Hn; [|apply pc_keep_refl].
+  destruct (nth_error (si s) j) as [inf|] eqn:Hi; [|apply pc_keep_refl].
+  destruct p as [| | |w| |todo|k todo| |r|r a|r]; try apply pc_keep_refl;
+    try (repeat match goal with |- context [if ?b then _ else _] => destruct b eqn:? end;
+         simpl; try apply pc_keep_upd; auto; apply pc_keep_refl).
+  - destruct todo as [|c todo].
+    + destruct (boxok inf); simpl; apply pc_keep_upd; auto; apply pc_keep_refl.
+    + destruct (do_call s c) as [k s'] eqn:Hc. simpl. apply pc_keep_upd; auto. eapply do_call_keep; eauto.
+  - destruct (ma_step fail s a) as [a' s'] eqn:Hma.
+    destruct (ma_step_eff _ _ _ _ _ Hma) as ((Es & _) & _).
+    destruct a'; simpl; rewrite Es; apply pc_keep_upd; auto; apply pc_keep_refl.
+Qed.
+
+Lemma dstep_ss fail s j : ss (dstep fail s j) = ss s.
+Proof.
+  unfold dstep. destruct (nth_error (ds s) j) as [[| |a|b]|]; auto.
+  destruct (ma_step fail s a) as [a' s'] eqn:Hma.
+  destruct (ma_step_eff _ _ _ _ _ Hma) as ((Es & _) & _). destruct a'; simpl; auto.
+Qed.
+
+(* every step either leaves frame i alone, creates it, or is a step of frame i *)
+Lemma step_pc s l i :
+  pc_keep (ss s) (ss (step s l)) i \/ (exists f, step s l = sstep f s i).
+Proof.
+  destruct l as [c|j|j|j|j| | | | | | | ]; simpl.
+  - left. destruct (do_call s c) as [k s'] eqn:H. simpl. eapply do_call_keep; eauto.
+  - destruct (Nat.eq_dec j i) as [->|Hne]; [right; eauto|left; apply sstep_other; auto].
+  - destruct (Nat.eq_dec j i) as [->|Hne]; [right; eauto|left; apply sstep_other; auto].
+  - left. rewrite dstep_ss. apply pc_keep_refl.
+  - left. rewrite dstep_ss. apply pc_keep_refl.
+  - left. unfold recv_step. destruct (cons s); try apply pc_keep_refl.
+    destruct (kill_req s); [apply pc_keep_refl|]. destruct (stop_req s); [apply pc_keep_refl|].
+    destruct (rx_open s); [|apply pc_keep_refl]. destruct (q s) as [|[k|] t]; apply pc_keep_refl.
+  - left. unfold handler_step. destruct (cons s) as [|k todo|k ch todo|r|r]; try apply pc_keep_refl.
+    + destruct todo as [|c todo]; [destruct (hfail_of s k); apply pc_keep_refl|].
+      destruct (do_call s c) as [ch s'] eqn:H. simpl. eapply do_call_keep; eauto.
+    + destruct (child_done s ch); apply pc_keep_refl.
+  - left. destruct (in_handler (cons s) && kill_req s); apply pc_keep_refl.
+  - left. destruct (alive (cons s)); apply pc_keep_refl.
+  - left. destruct (cons s); apply pc_keep_refl.
+  - left. destruct (cons s); apply pc_keep_refl.
+  - left. destruct (cons s); try apply pc_keep_refl. destruct (rx_open s); apply pc_keep_refl.
+Qed.
+
+(* monotone parts of the state *)
+Record Mono (s s' : st) : Prop := {
+  m_status : status s <= status s';
+  m_closed : closed s = true -> closed s' = true;
+  m_hist : exists ext, hist s' = hist s ++ ext;
+  m_si : forall i inf, nth_error (si s) i = Some inf -> nth_error (si s') i = Some inf
+}.
+
+Lemma mono_refl s : Mono s s.
+Proof. constructor; auto. exists []. rewrite app_nil_r; auto. Qed.
+
+Lemma mono_trans a b c : Mono a b -> Mono b c -> Mono a c.
+Proof.
+  intros [A1 A2 (e1 & A3) A4] [B1 B2 (e2 & B3) B4]. constructor; auto; try lia.
+  exists (e1 ++ e2). rewrite B3, A3, app_assoc. auto.
+Qed.
+
+Lemma mono_do_call s c k s' : do_call s c = (k, s') -> Mono s s'.
+Proof.
+  intros H. destruct (do_call_shape _ _ _ _ H) as
+    (l1 & l2 & l3 & Es & Ed & Ei & El & F1 & F2 & Ec & Em & En & Est & Eq & Eh & _).
+  constructor; rewrite ?Est, ?Ec, ?Eh; auto.
+  - exists []. rewrite app_nil_r; auto.
+  - intros i inf Hn. rewrite Ei. apply nth_app_some. auto.
+Qed.
+
+(* a state that differs only in fields Mono does not constrain, or constrains monotonically *)
+Lemma mono_fields s s' :
+  status s <= status s' -> (closed s = true -> closed s' = true) ->
+  (hist s' = hist s \/ exists x, hist s' = hist s ++ [x]) -> si s' = si s -> Mono s s'.
+Proof.
+  intros A B C D. constructor; auto.
+  - destruct C as [->|(x & ->)]; [exists []; rewrite app_nil_r; auto|eauto].
+  - rewrite D; auto.
+Qed.
+
+Lemma mono_ma fail s a a' s' : ma_step fail s a = (a', s') -> Mono s s'.
+Proof.
+  intros H. destruct (ma_step_eff _ _ _ _ _ H) as ((Es & Ed & Ei & Ec & Ecl & Est & _) & Hcase).
+  apply mono_fields; try rewrite Est; try rewrite Ecl; auto.
+  destruct Hcase as [(_ & Eh & _) | [(_ & _ & _ & _ & _ & _ & Eh & _)
+     | [(_ & _ & _ & _ & Eh & _) | (_ & _ & _ & _ & Eh & _)]]]; eauto.
+Qed.
+
+Lemma mono_sstep fail s i : Mono s (sstep fail s i).
+Proof.
+  unfold sstep.
+  destruct (nth_error (ss s) i) as [p|] eqn:Hn; [|apply mono_refl].
+  destruct (nth_error (si s) i) as [inf|] eqn:Hi; [|apply mono_refl].
+  destruct p as [| | |w| |todo|k todo| |r|r a|r]; try apply mono_refl;
+    try (repeat match goal with |- context [if ?b then _ else _] => destruct b eqn:? end;
+         apply mono_fields; simpl; eauto; fail).
+  - destruct todo as [|c todo].
+    + destruct (boxok inf); apply mono_fields; simpl; auto.
+    + destruct (do_call s c) as [k s'] eqn:Hc. eapply mono_trans; [eapply mono_do_call; eauto|].
+      apply mono_fields; simpl; auto.
+  - destruct (ma_step fail s a) as [a' s'] eqn:Hma.
+    eapply mono_trans; [eapply mono_ma; eauto|]. destruct a'; apply mono_fields; simpl; auto.
+Qed.
+
+Lemma mono_dstep fail s j : Mono s (dstep fail s j).
+Proof.
+  unfold dstep. destruct (nth_error (ds s) j) as [[| |a|b]|]; try apply mono_refl.
+  - apply mono_fields; simpl; auto.
+  - apply mono_fields; simpl; auto. destruct (status s <? 5) eqn:E; auto. apply Nat.ltb_lt in E. lia.
+  - destruct (ma_step fail s a) as [a' s'] eqn:Hma.
+    eapply mono_trans; [eapply mono_ma; eauto|]. destruct a'; apply mono_fields; simpl; auto.
+Qed.
+
+Lemma mono_step s l : Mono s (step s l).
+Proof.
+  destruct l as [c|j|j|j|j| | | | | | | ]; simpl; try apply mono_sstep; try apply mono_dstep.
+  - destruct (do_call s c) as [k s'] eqn:H. simpl. eapply mono_do_call; eauto.
+  - unfold recv_step. destruct (cons s); try apply mono_refl.
+    destruct (kill_req s); [apply mono_fields; simpl; auto|].
+    destruct (stop_req s); [apply mono_fields; simpl; auto|].
+    destruct (rx_open s); [|apply mono_refl]. destruct (q s) as [|[k|] t]; try apply mono_refl;
+      apply mono_fields; simpl; auto.
+  - unfold handler_step. destruct (cons s) as [|k todo|k ch todo|r|r]; try apply mono_refl.
+    + destruct todo as [|c todo]; [destruct (hfail_of s k); apply mono_fields; simpl; auto|].
+      destruct (do_call s c) as [ch s'] eqn:H. eapply mono_trans; [eapply mono_do_call; eauto|].
+      apply mono_fields; simpl; auto.
+    + destruct (child_done s ch); [apply mono_fields; simpl; auto|apply mono_refl].
+  - destruct (in_handler (cons s) && kill_req s); [apply mono_fields; simpl; auto|apply mono_refl].
+  - destruct (alive (cons s)); [apply mono_fields; simpl; auto|apply mono_refl].
+  - destruct (cons s); try apply mono_refl. apply mono_fields; simpl; auto. lia.
+  - destruct (cons s); try apply mono_refl. apply mono_fields; simpl; auto.
+  - destruct (cons s); try apply mono_refl. destruct (rx_open s); [apply mono_refl|].
+    apply mono_fields; simpl; auto.
+    lia.
+Qed.
+
+Lemma mono_run s ls : Mono s (run s ls).
+Proof.
+  revert s; induction ls as [|l t IH]; simpl; intros s; [apply mono_refl|].
+  eapply mono_trans; [apply mono_step|apply IH].
+Qed.
+
+(* ---------- sends that begin after a drain has returned ---------- *)
+
+Definition late_ok (s : st) (i : nat) : Prop :=
+  match nth_error (ss s) i with
+  | None | Some T0 | Some S0 => True
+  | Some (SDone (RErr m)) => m = i
+  | Some (SDone RInvalid) => exists inf, nth_error (si s) i = Some inf /\ wrong inf = true
+  | _ => False
+  end.
+
+Lemma late_step s l i : 4 <= status s -> late_ok s i -> late_ok (step s l) i.
+Proof.
+  intros Hs H. destruct (step_pc s l i) as [[K|[K1 K2]]|[f K]].
+  - unfold late_ok in *. rewrite K. destruct (nth_error (ss s) i) as [[| | | | | | | | | |[]]|]; auto.
+    destruct H as (inf & A & B). exists inf. split; auto. apply (m_si _ _ (mono_step s l)); auto.
+  - unfold late_ok. rewrite K2. auto.
+  - rewrite K. unfold late_ok in *. unfold sstep.
+    destruct (nth_error (ss s) i) as [p|] eqn:Hn; [|rewrite Hn; auto].
+    destruct (nth_error (si s) i) as [inf|] eqn:Hi; [|rewrite Hn, ?Hi; exact H].
+    destruct p as [| | |w| |todo|k todo| |r|r a|r]; try tauto.
+    + destruct (wrong inf) eqn:Ew; simpl; rewrite (nth_upd_eq _ _ _ _ Hn); eauto.
+    + apply Nat.leb_le in Hs. rewrite Hs. simpl. rewrite (nth_upd_eq _ _ _ _ Hn). auto.
+    + rewrite Hn, Hi. auto.
+Qed.
+
+Lemma late_run s ls i : 4 <= status s -> late_ok s i -> late_ok (run s ls) i.
+Proof.
+  revert s; induction ls as [|l t IH]; simpl; intros s Hs H; auto.
+  apply IH; [pose proof (m_status _ _ (mono_step s l)); lia|apply late_step; auto].
+Qed.
+
+Theorem closed_rejects s1 ls j ok i r :
+  Inv s1 -> nth_error (ds s1) j = Some (DDone ok) -> nth_error (ss s1) i = None ->
+  result (run s1 ls) i = Some r ->
+  r = RErr i \/ (r = RInvalid /\ exists inf, nth_error (si (run s1 ls)) i = Some inf /\ wrong inf = true).
+Proof.
+  intros I Hd Hn Hr.
+  assert (Hs : 4 <= status s1).
+  { apply (n_status _ (inv_n _ I)). pose proof (sumf_upd d_past2 _ _ _ D0 Hd) as X. simpl in X. lia. }
+  assert (L : late_ok s1 i) by (unfold late_ok; rewrite Hn; auto).
+  pose proof (late_run s1 ls i Hs L) as L2. apply result_pc in Hr. unfold late_ok in L2. rewrite Hr in L2.
+  destruct r; [tauto|left; congruence|right; auto].
+Qed.
+
+(* ---------- real-time order ---------- *)
+
+Lemma before_ids h i j : before (Msg i) (Msg j) h -> before i j (ids h).
+Proof.
+  intros (a & b & c & ->). exists (ids a), (ids b), (ids c).
+  rewrite ids_app. simpl. rewrite ids_app. simpl. auto.
+Qed.
+
+Lemma nodup_split_unique {A} (y : A) p1 r1 p2 r2 :
+  NoDup (p1 ++ y :: r1) -> p1 ++ y :: r1 = p2 ++ y :: r2 -> p1 = p2.
+Proof.
+  revert p2. induction p1 as [|z p1 IH]; intros [|z' p2] ND E; simpl in *; auto.
+  - injection E as <- E. exfalso. inversion ND; subst. apply H1. apply in_or_app. right. left. auto.
+  - injection E as -> E. exfalso. inversion ND; subst. apply H1. apply in_or_app. right. left. auto.
+  - injection E as <- E. f_equal. inversion ND; subst. eapply IH; eauto.
+Qed.
+
+Lemma before_prefix {A} (x y : A) t fl : NoDup (t ++ fl) -> before x y (t ++ fl) -> In y t -> before x y t.
+Proof.
+  intros ND (a & b & c & E) Hy. apply in_split in Hy as (t1 & t2 & ->).
+  rewrite <- app_assoc in E, ND. simpl in E, ND.
+  assert (X : t1 = a ++ x :: b).
+  { eapply nodup_split_unique; [exact ND|]. rewrite E. rewrite app_comm_cons, app_assoc. reflexivity. }
+  exists a, b, t2. rewrite X. rewrite <- app_assoc. reflexivity.
+Qed.
+
+Theorem real_time_order s1 ls i j :
+  Inv s1 -> result s1 i = Some ROk -> nth_error (ss s1) j = None ->
+  forall s2, s2 = run s1 ls ->
+  (In j (accepted s2) -> before i j (accepted s2)) /\
+  (In j (handled s2) -> before i j (handled s2)).
+Proof.
+  intros I1 Hi Hj s2 ->. set (s2 := run s1 ls). pose proof (run_inv s1 ls I1) as I2. fold s2 in I2.
+  destruct (m_hist _ _ (mono_run s1 ls)) as (ext & Eh). fold s2 in Eh.
+  assert (A1 : In (Msg i) (hist s1)) by (apply in_ids; apply (ok_accepted s1 i I1 Hi)).
+  assert (A2 : ~ In (Msg j) (hist s1)).
+  { intros X. apply (h_pt _ (inv_h _ I1) j) in X. unfold enq_at in X. rewrite Hj in X. discriminate. }
+  assert (B : In (Msg j) (hist s2) -> before (Msg i) (Msg j) (hist s2)).
+  { intros X. rewrite Eh in X. apply in_app_or in X as [X|X]; [tauto|].
+    apply in_split in A1 as (a & b & Ea). apply in_split in X as (e1 & e2 & Ee).
+    exists a, (b ++ e1), e2. rewrite Eh, Ea, Ee. rewrite <- !app_assoc. simpl. reflexivity. }
+  split.
+  - unfold accepted. intros X. apply before_ids, B, in_ids, X.
+  - unfold handled. intros X. apply in_ids in X. apply before_ids.
+    destruct (q_split _ (inv_q _ I2)) as (fl & E1 & _).
+    apply (before_prefix _ _ _ fl); auto.
+    + rewrite <- E1. apply (h_nodup _ (inv_h _ I2)).
+    + rewrite <- E1. apply B. rewrite E1. apply in_or_app. auto.
+Qed.
+
+(* ---------- once the marker is in the channel nothing is ever enqueued again ---------- *)
+
+Theorem marker_last s1 ls : Inv s1 -> In Marker (hist s1) -> hist (run s1 ls) = hist s1.
+Proof.
+  intros I1 HM. pose proof (run_inv s1 ls I1) as I2.
+  destruct (m_hist _ _ (mono_run s1 ls)) as (ext & Eh).
+  assert (HM2 : In Marker (hist (run s1 ls))) by (rewrite Eh; apply in_or_app; auto).
+  destruct (marker_after_accepted _ I2 HM2) as (msgs & E & Hn & _).
+  assert (X : ext = []).
+  { apply (marker_last_split (hist s1) ext msgs); [congruence| |apply in_markers; auto].
+    destruct (markers msgs) eqn:Y; auto. exfalso. apply Hn, markers_pos_in. lia. }
+  rewrite Eh, X, app_nil_r. auto.
+Qed.
+
+(* a send whose type does not match is rejected and changes nothing but its own frame *)
+Theorem wrong_type_inert fail s i inf :
+  nth_error (ss s) i = Some T0 -> nth_error (si s) i = Some inf -> wrong inf = true ->
+  sstep fail s i = add_log (set_ss s (upd (ss s) i (SDone RInvalid))) (EEnd i RInvalid).
+Proof. intros H1 H2 H3. unfold sstep. rewrite H1, H2, H3. reflexivity. Qed.
